@@ -55,6 +55,30 @@ def build_big_base(rnd):
     return s
 
 
+def build_capacity_base(rnd):
+    """exactly as many fragments lost as the parity slot has rows (the session enters stage 2 with every row in use)"""
+    while True:
+        blk, sz = 256, rnd.choice([8, 16, 40, 64])
+        slot = -(-(session.DRO + rnd.choice([600, 1024, 1500, 2048])) // blk) * blk
+        cap = session.max_l(slot, sz)
+        room = (slot - session.DRO) // sz
+        if 2 <= cap < room and cap <= 40:
+            break
+    n = min(room, cap + rnd.randint(1, 4))
+    img = ts004.make_image(rnd, n, sz)
+    lost = set(rnd.sample(range(1, n + 1), cap))
+    seq = [i for i in range(1, n + 1) if i not in lost] + list(range(n + 1, n + 1 + cap + 8))
+    s = session.Scn(4, slot, blk)
+    s.meta = dict(n=n, sz=sz, cap=cap, img=img, seq=seq, mode="at-capacity", lost=sorted(lost), ffr=False, big=True, atcap=True)
+    s.meta["fb_before"] = s.add("fb"); s.meta["fbvalid_before"] = s.add("validfb")
+    s.meta["start_op"] = s.add("start %d %d" % (sz, n))
+    s.meta["seg_ops"] = [s.add(session.seg_op(img, n, sz, i, False)) for i in seq]
+    s.meta["done_op"] = s.add("done")
+    s.meta["bl_op"] = s.add("bl"); s.meta["valid_op"] = s.add("validbl"); s.meta["dump_op"] = s.add("dumpbl %x %d" % (session.DRO, n * sz))
+    s.meta["fb_op"] = s.add("fb"); s.meta["fbvalid_after"] = s.add("validfb"); s.meta["hdrs_op"] = s.add("hdrs")
+    return s
+
+
 def build_wide_base(rnd):
     """more than 256 data fragments, one 256-aligned window of the segment status table never written, losses behind it"""
     from . import c07
@@ -167,7 +191,7 @@ def run(chk):
     chk.prove()
     rnd = random.Random(chk.seed)
     nbase, limit = (10, 60) if chk.quick() else (120, 300)
-    bases = [build_base(rnd) for _ in range(nbase)] + [build_base(rnd, wrapped=True) for _ in range(2 if chk.quick() else 20)] + [build_big_base(rnd) for _ in range(3 if chk.quick() else 30)]
+    bases = [build_base(rnd) for _ in range(nbase)] + [build_base(rnd, wrapped=True) for _ in range(2 if chk.quick() else 20)] + [build_big_base(rnd) for _ in range(3 if chk.quick() else 30)] + [build_capacity_base(rnd) for _ in range(3 if chk.quick() else 30)]
     lines, impl, refouts = session.run(chk, bases, stream="session-crash-ref")
     wides = [build_wide_base(rnd) for _ in range(1 if chk.quick() else 12)]
     wlines, wimpl, wrefouts = session.run(chk, wides, stream="session-crash-wide-ref")
@@ -186,7 +210,7 @@ def run(chk):
         if b.meta.get("big"):
             # power loss while the parity rows are being collected / during back substitution
             first_coded = b.meta["seg_ops"][len([i for i in b.meta["seq"] if i <= b.meta["n"]])]
-            idxs = [k for k in idxs if (crash.locate(shifted, k) or (0, 0))[0] >= first_coded + 6]
+            idxs = [k for k in idxs if (crash.locate(shifted, k) or (0, 0))[0] >= first_coded + (1 if b.meta.get("atcap") else 6)]
             lim = (16 if chk.quick() else 60) if b.meta.get("wide") else limit
             if len(idxs) > lim:
                 keep = set(rnd.sample(idxs, lim)); idxs = [k for k in idxs if k in keep]
@@ -210,7 +234,7 @@ def run(chk):
         nt.append(l)
     chk.note_cases("session-crash", clines + wclines, nt, sample_n=1, dist=dist)
     return chk.finish(level="proof",
-        rule="session-crash: for each base delivery (capacity >= 1, up to 6 losses, three delivery orders, ring positions from random earlier updates and explicitly the pair that wraps the ring end; plus big-loss bases with 9..20 losses where power is lost from the seventh coded fragment on; plus wide bases - 520..620 one-byte fragments, one 256-aligned window of the status table never written and losses behind it, power lost during parity processing) power is lost at every modifying flash operation of start_update, every handle_segment and check_and_mark_done "
+        rule="session-crash: for each base delivery (capacity >= 1, up to 6 losses, three delivery orders, ring positions from random earlier updates and explicitly the pair that wraps the ring end; plus big-loss bases with 9..20 losses where power is lost from the seventh coded fragment on; plus at-capacity bases (exactly as many losses as the parity slot has rows, power lost from the second coded fragment on); plus wide bases - 520..620 one-byte fragments, one 256-aligned window of the status table never written and losses behind it, power lost during parity processing) power is lost at every modifying flash operation of start_update, every handle_segment and check_and_mark_done "
              "(all boundaries; inside long erase runs the first, second and last block; sampled when a script has more than %d), each with both continuations (interrupted fragment re-sent / lost), then reboot, try_recover, remainder, one full data pass, final check; "
              "non-trivial = every crash case; distinct by case text" % limit,
         trusted=core.TRUSTED_COMMON + ["C06: power loss = prefix of the operation log (block-atomic erase); torn programs are C04's"])
